@@ -125,9 +125,9 @@ Definition dec_srv (s : sx) : option srvcfg :=
   end.
 Definition dec_ncfg (s : sx) : option ncfg :=
   match s with
-  | L [cap; ccm; A d; srv; A pre; rg; rn] =>
+  | L [cap; ccm; A d; srv; A pre; rg; rn; A sp] =>
     do cap' <- do_ cap; do m <- dec_oll ccm; do srv' <- dec_srv srv; do rg' <- db rg; do rn' <- dbs rn;
-    Some (mkNcfg cap' m d srv' pre rg' rn')
+    Some (mkNcfg cap' m d srv' pre rg' rn' sp)
   | _ => None end.
 Definition dec_otab (s : sx) : option (option (list Z)) :=
   match s with L [] => Some None | L [t] => do t' <- getZs t; Some (Some t') | _ => None end.
